@@ -190,9 +190,19 @@ class StreamModel:
             st['born'].setdefault(id(region), st['chunk'])
             n = region.fields.get('length')
             src = T('tail', interp2.termify(n))
-            region.fields['data'] = T('bytes', src, K(0),
-                                      interp2.termify(n))
-            region.fields['offset'] = T('sym', 'tail_offset')
+            if interp2.guide is not None:
+                # lazy enumeration: the window holds what the stream has
+                try:
+                    nv = interp2.guide(interp2.termify(n))
+                except (CannotEval, Raised) as e:
+                    raise Inexact('tail window size not evaluable: %s' % e)
+                have = min(nv, len(model.image))
+                region.fields['data'] = T('bytes', src, K(0), K(have))
+                region.fields['offset'] = K(len(model.image) - have)
+            else:
+                region.fields['data'] = T('bytes', src, K(0),
+                                          interp2.termify(n))
+                region.fields['offset'] = T('sym', 'tail_offset')
             interp2.effect('capture', 'tail', K(st['chunk']), FULL)
             return K(None)
         interp.stubs['CaptureRegion.capture'] = capture
@@ -385,7 +395,10 @@ class StreamModel:
                     break
                 if chunk_observer:
                     res['chunks'].append(observe(interp, insp, False))
-            interp.call(interp.get_attr(insp, 'finish'), [])
+            try:
+                interp.call(interp.get_attr(insp, 'finish'), [])
+            except AbsRaise as r:
+                res['finish_error'] = _exc_name(interp, r.exc)
             res['final'] = observe(interp, insp, True)
             chk = insp.fields.get('_safety_checks')
             res['checks'] = sorted(k.v for k in chk.keys) if isinstance(
